@@ -127,6 +127,13 @@ class Domain:
   def global_read(self, module, name, node):
     return self.top(node)
 
+  def maybe_unassigned_read(self, cls, name, node, st):
+    pass
+
+  def refined(self, v):
+    """A value whose constant facet was narrowed by a branch test."""
+    return v
+
   def unbound_name(self, name, node, st):
     return self.top(node)
 
@@ -933,6 +940,8 @@ class Engine:
     if objv.obj is not None:
       key = (objv.obj.oid, attr)
       if key in st.vars:
+        if ('?unbound', key) in st.vars:
+          self.dom.maybe_unassigned_read(objv.obj.cls, attr, node, st)
         return st.vars[key]
       cls = objv.obj.cls
       meth = self.repo.resolve_method(cls, attr)
@@ -1616,7 +1625,42 @@ class Engine:
       if is_heap(k):
         st.vars[k] = v
     st.aux = js.aux
+    self._narrow_args(target, e, js, st, func)
     return self._wrap(self.dom.call_result(target, ret, e, st))
+
+  def _narrow_args(self, target, e, js, st, func):
+    """Facts the callee established about a parameter it never rebinds
+    (it raised on every other value) hold for the caller's variable."""
+    if not isinstance(e, ast.Call):
+      return
+    stored = set(n.id for n in ast.walk(target.node)
+                 if isinstance(n, ast.Name) and isinstance(n.ctx, ast.Store))
+    a = target.node.args
+    pos = [x.arg for x in a.posonlyargs + a.args]
+    if target.cls is not None and not target.is_static and pos:
+      is_bound = isinstance(e.func, ast.Attribute) and not (
+          isinstance(e.func.value, ast.Name) and
+          e.func.value.id in func.module.classes)
+      if is_bound:
+        pos = pos[1:]
+    pairs = []
+    for i, an in enumerate(e.args):
+      if isinstance(an, ast.Starred):
+        break
+      if i < len(pos):
+        pairs.append((pos[i], an))
+    for k in e.keywords:
+      if k.arg is not None:
+        pairs.append((k.arg, k.value))
+    for p, an in pairs:
+      if p in stored or not isinstance(an, ast.Name):
+        continue
+      cv = js.vars.get(p)
+      cur = st.vars.get(an.id)
+      if isinstance(cv, V) and isinstance(cur, V) and cv.c is not NOCONST:
+        if cur.c is NOCONST or cv.c < cur.c:
+          st.vars[an.id] = self.dom.refined(cur.with_(c=cv.c, ty=cv.ty
+                                                      or cur.ty))
 
   # --------------------------------------------------- truth & refinement
   def truth(self, v):
@@ -1653,8 +1697,18 @@ class Engine:
   def refine(self, test, taken, st, func):
     """Refine `st` under the assumption that `test` evaluates to `taken`.
     Returns False if that is impossible."""
+    before = dict((k, v) for k, v in st.vars.items())
+    ok = self._refine(test, taken, st, func)
+    if ok:
+      for k, v in st.vars.items():
+        if isinstance(v, V) and before.get(k) is not v and \
+                v.c is not NOCONST:
+          st.vars[k] = self.dom.refined(v)
+    return ok
+
+  def _refine(self, test, taken, st, func):
     if isinstance(test, ast.UnaryOp) and isinstance(test.op, ast.Not):
-      return self.refine(test.operand, not taken, st, func)
+      return self._refine(test.operand, not taken, st, func)
     if isinstance(test, ast.BoolOp):
       conj = isinstance(test.op, ast.And)
       if conj == taken:
@@ -1664,7 +1718,7 @@ class Engine:
           t = self.truth(v)
           if t is not None and t != taken:
             return False
-          if not self.refine(x, taken, st, func):
+          if not self._refine(x, taken, st, func):
             return False
         return True
       # (and is false) / (or is true): with two operands where the first is
@@ -1677,7 +1731,7 @@ class Engine:
       if (not conj) and any(t is True for t in decided_other):
         return True
       if len(undecided) == 1:
-        return self.refine(undecided[0], taken, st, func)
+        return self._refine(undecided[0], taken, st, func)
       if not undecided:
         return False
       return True
